@@ -52,7 +52,11 @@ TITLE = "Edits change exactly what was asked and keep everything else verbatim"
 COQ_PROPS = "Props/C08.v"
 DRIVER_NAME = "c08"
 HARNESS = {"bin": "c08"}
-THEOREMS = []
+THEOREMS = [
+    "C08_step_content: forall t o t', apply o t = Some t' -> abs t' = spec_apply o (abs t)  (all 16 operation kinds)",
+    "C08_history_content / C08_history_content_all: the same folded over any operation list (inapplicable operations skipped)",
+    "C08_order_abs / _insert / _remove / _sort / _array_insert: abs keeps storage order; where spec_apply puts new entries and that survivors keep their relative order",
+]
 RULE = ("gen_toml documents (random layout, comments and whitespace in every decor slot) x random operation lists "
         "(length <= 12 quick) on existing / missing / wrongly typed paths over the document's own keys plus fresh keys; "
         "non-trivial = at least two operations applied")
@@ -944,7 +948,7 @@ def gen_cases(rng, tier):
     out = []
     for text, ops in WITNESSES:
         out.append(mk_case(text, [o for o in ops.split(";") if o], "witness"))
-    n_docs = 1500 if quick else 60000
+    n_docs = 4000 if quick else 60000
     for _ in range(n_docs):
         text, tab = gen_doc(rng)
         root = tree_from_tab(tab)
